@@ -207,6 +207,10 @@ class NPProxy(object):
     def can_cast(self, a, b, casting='safe'):
         if isinstance(a, SymArray):
             a = real_dtype(a._fake)
+        elif isinstance(a, SC):
+            a = np.dtype('complex128')
+        elif isinstance(a, (SV, SD)):
+            a = np.dtype('int64') if isinstance(a, SV) and a.t.sort == T.Z else np.dtype('float64')
         return self._r.can_cast(_xlate(a), _xlate(b), casting=casting)
 
     def promote_types(self, a, b):
